@@ -35,6 +35,9 @@ open_('F07i', 'C04', 'interrupted_late', 'C04/cons:1/interrupted_late',
        T(2, ('KFixed', Z(3))), ('OAddRequired', N(2), ('ArgW', ('WPlain', N(1))), False, Z(0), Z(0))],
       'a task assigned to the resource after ResourceInterrupted was created may overlap the interruption [F07]', pin={'T2_start': 1})
 
+F.append(dict(id='F22', property='C13', status='open', clause_kind='reinit-multiobjective',
+              witness=dict(case='corpus/C13/F22.json'),
+              text="initialize() a second time (or a second SchedulingSolver) on a problem with two objectives raises ValueError: build_equivalent_weighted_objective registers 'EquivalentIndicator' / 'MinimizeEquivalentObjective' in the problem itself [F22]"))
 fixed('F01', 'C01', '417f19d', 'ZeroDurationTask + TaskStartAt(-3): returned start = end = -3 (no start >= 0)')
 fixed('F02', 'C06', '417f19d', 'optional ZeroDurationTask had no scheduled variable (reported scheduled=False with start 2)')
 fixed('F03', 'C02', 'f96816e', 'dynamic assignment admitted busy_end < busy_start (assignment (T, 22382, 0), cost -111910)')
